@@ -57,17 +57,24 @@ def _mk_loaders(kind: str, cap: int, auto_reload: bool, ns_key: bool, root: Path
         class K(Fail, base):  # type: ignore[misc,valid-type]
             _in_async = False
 
+            @staticmethod
+            def _uid(context, kwargs):  # type: ignore[no-untyped-def]
+                uid = kwargs.get("uid")
+                if uid is None and context is not None:
+                    uid = context.globals.get("uid")
+                return uid
+
             def get_source(self, env, template_name, *, context=None, **kwargs):  # type: ignore[no-untyped-def]
                 if not self._in_async:
                     self._maybe_fail(template_name)
-                    if ns_aware and kwargs.get("uid") is not None:
-                        template_name = f"{kwargs['uid']}/{template_name}"
+                    if ns_aware and self._uid(context, kwargs) is not None:
+                        template_name = f"{self._uid(context, kwargs)}/{template_name}"
                 return super().get_source(env, template_name, context=context, **kwargs)
 
             async def get_source_async(self, env, template_name, *, context=None, **kwargs):  # type: ignore[no-untyped-def]
                 self._maybe_fail(template_name)
-                if ns_aware and kwargs.get("uid") is not None:
-                    template_name = f"{kwargs['uid']}/{template_name}"
+                if ns_aware and self._uid(context, kwargs) is not None:
+                    template_name = f"{self._uid(context, kwargs)}/{template_name}"
                 # BaseLoader.get_source_async delegates to self.get_source
                 self._in_async = True
                 try:
@@ -154,7 +161,8 @@ def run_history(kind: str, cap: int, auto_reload: bool, ns_key: bool, ops: list[
                 twin.fail_next = True
                 obs_c = obs_u = ("Q",)
             else:
-                _, name, ns, g, is_async = op
+                _, name, ns, g, is_async = op[:5]
+                via = len(op) > 5 and op[5]
                 kw: dict[str, Any] = {}
                 if ns is not None:
                     kw["uid"] = ns
@@ -162,11 +170,21 @@ def run_history(kind: str, cap: int, auto_reload: bool, ns_key: bool, ops: list[
                 out = []
                 for env in (env_c, env_u):
                     try:
-                        if is_async:
-                            t = loop.run_until_complete(env.get_template_async(name, globals=gl, **kw))
+                        if via:
+                            # loaded from inside a render: the loader is called with the render context
+                            tag = via if isinstance(via, str) else "include"
+                            wrapper = env.from_string("{% " + tag + " '" + name + "' %}")
+                            if is_async:
+                                text = loop.run_until_complete(wrapper.render_async(**kw))
+                            else:
+                                text = wrapper.render(**kw)
+                            out.append(("L",) + _parse(text))
                         else:
-                            t = env.get_template(name, globals=gl, **kw)
-                        out.append(("L",) + _parse(t.render()))
+                            if is_async:
+                                t = loop.run_until_complete(env.get_template_async(name, globals=gl, **kw))
+                            else:
+                                t = env.get_template(name, globals=gl, **kw)
+                            out.append(("L",) + _parse(t.render()))
                     except TemplateNotFoundError:
                         out.append(("N",))
                     except Exception as e:  # noqa: BLE001
@@ -178,7 +196,7 @@ def run_history(kind: str, cap: int, auto_reload: bool, ns_key: bool, ops: list[
                 if faulted:
                     # what the non-caching loader gives once the fault has passed
                     try:
-                        t = env_u.get_template(name, globals=gl, **kw)
+                        t = env_u.get_template(name, globals=None if via else gl, **kw)
                         obs_u = obs_u + (("L",) + _parse(t.render()),)
                     except TemplateNotFoundError:
                         obs_u = obs_u + (("N",),)
@@ -198,8 +216,9 @@ def run_history(kind: str, cap: int, auto_reload: bool, ns_key: bool, ops: list[
 
 def c_op(op: tuple) -> str:
     if op[0] == "L":
-        _, name, ns, g, a = op
-        return f"Load {C.cstr(name)} {C.copt(C.cstr(str(ns)) if ns is not None else None, 'str')} {g} {C.cbool(a)}"
+        _, name, ns, g, a = op[:5]
+        via = len(op) > 5 and bool(op[5])
+        return f"Load {C.cstr(name)} {C.copt(C.cstr(str(ns)) if ns is not None else None, 'str')} {g} {C.cbool(a)} {C.cbool(via)}"
     if op[0] == "M":
         return f"Modify {C.cstr(op[1])} {op[2]}"
     if op[0] == "D":
@@ -256,8 +275,9 @@ def oracle(kind: str, cap: int, ar: bool, nsk: bool, ops: list[tuple], res: dict
         c, u = s["c"], s["u"]
         if c[0] == "X":
             return f"step {i}: caching loader raised {c[1]}"
-        if c[0] == "L" and c[2] != op[3]:
-            return f"step {i}: rendered with globals G{c[2]}, caller passed G{op[3]}"
+        want_g = 0 if (len(op) > 5 and op[5]) else op[3]
+        if c[0] == "L" and c[2] != want_g:
+            return f"step {i}: rendered with globals G{c[2]}, caller passed G{want_g}"
         if len(u) == 2:
             # the source loader was failing during this step: an up-to-date
             # cache hit may still be served
@@ -283,6 +303,8 @@ def alphabet(kind: str, nsk: bool) -> list[tuple]:
     ns_aware, _ = KINDS[kind]
     nss: list[str | None] = list(NSS) if nsk else [None]
     loads = [("L", n, ns, g, a) for n in NAMES for ns in nss for g in (0, 1) for a in (False, True)]
+    # the same template reached through include / render inside another template
+    loads += [("L", n, ns, 0, a, tag) for n in NAMES for ns in nss for a in (False, True) for tag in ("include", "render")]
     keys = [f"{ns}/{n}" for ns in NSS for n in NAMES] if ns_aware else list(NAMES)
     mods = [("M", k, 0) for k in keys]
     dels = [("D", k) for k in keys]
@@ -324,6 +346,11 @@ CORPUS = [
     ("fs", 2, True, False, [("M", "t", 1), ("L", "t", None, 0, False), ("D", "t"), ("L", "t", None, 0, False)]),
     ("fs", 2, True, False, [("M", "t", 1), ("L", "t", None, 0, True), ("D", "t"), ("L", "t", None, 0, True)]),
     ("fs", 1, True, False, [("M", "t", 1), ("L", "t", None, 0, True), ("L", "t", None, 1, False), ("M", "t", 2), ("L", "t", None, 0, False)]),
+    # a partial reached through include is revalidated against the file like any other load
+    ("fs", 2, True, False, [("M", "t", 1), ("L", "t", None, 0, False, "include"), ("M", "t", 2), ("L", "t", None, 0, False, "include"),
+                            ("M", "t", 3), ("L", "t", None, 0, True, "render")]),
+    # a load from inside a render must not re-bind the globals of the cached object (fixed in /repo 65f8ab3)
+    ("dict", 2, True, False, [("M", "t", 1), ("L", "t", None, 1, False), ("L", "t", None, 0, False, "include"), ("L", "t", None, 0, True, "render")]),
 ]
 
 # Known finding C14-cache-key-collision: the cache key is "<ns>/<name>", so a
